@@ -4,7 +4,7 @@
 //! `cch --conc-child <nthreads> <seed> <rounds>`.  In the child, `nthreads` threads build their
 //! scripts (plain protocol lines, no library calls), wait on a `std::sync::Barrier`, and then make
 //! their FIRST calls into the library simultaneously — thread 0 starts with Grøstl (racing the six
-//! `lazy_static! IMPL` cells), thread 1 with JH, … (`order`) — each on its own thread-private
+//! `lazy_static! IMPL` cells), thread 1 with Skein, … (`order`) — each on its own thread-private
 //! instances: first one-shot computations (phase A), then `rounds` round-robin passes feeding one
 //! piece to every instance in turn (phase B), so that operations on distinct instances interleave.
 //! Nothing in the child touches the library before the barrier opens (CPU-feature detection and the
@@ -19,7 +19,7 @@ use std::process::{Command, Stdio};
 use std::sync::{Arc, Barrier};
 use std::time::{Duration, Instant};
 
-const N_ITEMS: usize = 11;
+const N_ITEMS: usize = 15;
 /// (family, variant, nonce length)
 const ITEMS: [(&str, &str, usize); N_ITEMS] = [
     ("groestl", "224", 0),
@@ -30,7 +30,15 @@ const ITEMS: [(&str, &str, usize); N_ITEMS] = [
     ("blake", "512", 0),
     ("jh", "256", 0),
     ("skein", "512-64", 0),
+    // two more output sizes of the same state size, one 8x the other, created back to back: a
+    // process-wide cache keyed on a type-level parameter (bytes vs bits) shows only then
+    ("skein", "512-32", 0),
+    ("skein", "512-256", 0),
     ("chacha", "chacha20", 8),
+    // other round counts next to the 20-round ciphers: anything resolved once per process by the first
+    // caller (a cached kernel pointer, say) must not leak from one cipher type into another
+    ("chacha", "chacha8", 8),
+    ("chacha", "chacha12", 8),
     ("chacha", "ietf", 12),
     ("chacha", "xchacha20", 24),
 ];
@@ -42,7 +50,7 @@ fn order(tid: u64, focus: u64) -> Vec<usize> {
     if (focus as usize) < N_ITEMS {
         return (0..N_ITEMS as u64).map(|j| ((focus + j) % N_ITEMS as u64) as usize).collect();
     }
-    (0..N_ITEMS as u64).map(|j| ((6 * tid + j) % N_ITEMS as u64) as usize).collect()
+    (0..N_ITEMS as u64).map(|j| ((7 * tid + j) % N_ITEMS as u64) as usize).collect()
 }
 fn len_a(seed: u64, tid: u64, it: u64) -> u64 {
     (seed * 7 + tid * 13 + it * 29) % 97
@@ -84,7 +92,7 @@ fn script(tid: u64, seed: u64, rounds: u64, focus: u64) -> Vec<(usize, String)> 
         s.push((it, new_line(it, it, sd)));
         if is_c(it) {
             s.push((it, format!("chacha seek {} u64 {}", it, off_a(seed, tid, it as u64))));
-            s.push((it, format!("chacha applypat {} {} {}", it, len_a(seed, tid, it as u64), sd)));
+            s.push((it, format!("chacha applypat {} {} {}", it, 320 + len_a(seed, tid, it as u64), sd)));
         } else {
             s.push((it, format!("{} updpat {} {} {}", fam, it, len_a(seed, tid, it as u64), sd)));
             s.push((it, format!("{} fin {}", fam, it)));
